@@ -33,6 +33,7 @@ type ShutCase struct {
 	Fault      string // readerr | writeerr | peerclose | cancel
 	Offset     int    // readerr: bytes of one more (partial) request frame delivered before the error; writeerr: bytes of further output allowed
 	PauseReads bool   // the client stops reading replies before the burst (blocks the server's writer on a rendezvous connection)
+	DupTag     int    // >0: that many further requests reuse the tag of a parked request right before the fault (each owed a duplicate-tag error the server may be unable to write)
 }
 
 var flightKinds = []string{"walk", "clone", "attach", "open", "opendir", "create", "read", "write", "stat", "wstat", "clunk", "remove"}
@@ -50,6 +51,9 @@ func GenShut(t *rapid.T) ShutCase {
 	c.Fault = rapid.SampledFrom([]string{"readerr", "writeerr", "peerclose", "cancel"}).Draw(t, "fault")
 	c.Offset = rapid.IntRange(0, 30).Draw(t, "offset")
 	c.PauseReads = rapid.IntRange(0, 2).Draw(t, "pause") == 0
+	if rapid.IntRange(0, 3).Draw(t, "dup") == 0 {
+		c.DupTag = rapid.IntRange(1, 3).Draw(t, "ndup")
+	}
 	return c
 }
 
@@ -168,7 +172,7 @@ func RunShut(c ShutCase) harn.Result {
 	}
 	res := harn.Result{}
 	fail := func(format string, a ...any) harn.Result {
-		return harn.Fail("%s [fault %s offset %d, rendezvous=%v pause=%v, in flight: %s]", fmt.Sprintf(format, a...), c.Fault, c.Offset, c.Rendezvous, c.PauseReads, describeFlight(c.Flight))
+		return harn.Fail("%s [fault %s offset %d, rendezvous=%v pause=%v duptag=%d, in flight: %s]", fmt.Sprintf(format, a...), c.Fault, c.Offset, c.Rendezvous, c.PauseReads, c.DupTag, describeFlight(c.Flight))
 	}
 
 	if _, err := p.Handshake(8192, shutBound); err != nil {
@@ -308,7 +312,20 @@ func RunShut(c ShutCase) harn.Result {
 		go p.Send(&mm)
 		burst++
 	}
-	if burst > 0 {
+	if c.DupTag > 0 {
+		// requests reusing the tag of a parked request: the server owes each a duplicate-tag error
+		for i, m := range reqs {
+			if c.Flight[i].Complete {
+				continue
+			}
+			for k := 0; k < c.DupTag; k++ {
+				dup := refwire.Msg{Kind: refwire.Tstat, Tag: m.Tag, Fid: 9999}
+				go p.Send(&dup)
+			}
+			break
+		}
+	}
+	if burst > 0 || c.DupTag > 0 {
 		time.Sleep(time.Duration(c.Offset%4) * 100 * time.Microsecond)
 	}
 
@@ -426,6 +443,9 @@ func RunShut(c ShutCase) harn.Result {
 		} else {
 			res.Classes = append(res.Classes, "completing_"+f.Kind)
 		}
+	}
+	if c.DupTag > 0 {
+		res.Classes = append(res.Classes, "duptag_in_flight")
 	}
 	if pause {
 		res.Classes = append(res.Classes, "client_not_reading")
